@@ -108,6 +108,7 @@ func genScenario(t *rapid.T) scenario {
 		Host:   rapid.SampledFrom([]string{"svc.example.com", "public.example.com"}).Draw(t, "host"),
 		Path:   rapid.SampledFrom([]string{"/public/x", "/public/y/z", "/other"}).Draw(t, "path"),
 		Entry:  rapid.SampledFrom([]vkit.Entry{vkit.EntryDecision, vkit.EntryProxy}).Draw(t, "entry"),
+		Query:  rapid.SampledFrom([]string{"", "", "own=1"}).Draw(t, "query"),
 	}
 
 	switch rapid.IntRange(0, 5).Draw(t, "trustedKind") {
@@ -140,7 +141,7 @@ func genScenario(t *rapid.T) scenario {
 		case "X-Forwarded-Host":
 			vals = []string{rapid.SampledFrom([]string{"admin.example.com", "evil.example.com"}).Draw(t, "v")}
 		case "X-Forwarded-Uri":
-			vals = []string{rapid.SampledFrom([]string{"/admin/secret?as=root", "/admin/x%20y?b=2&a=1", "/public/other?q=1",
+			vals = []string{rapid.SampledFrom([]string{"/admin/secret?as=root", "/admin/x%20y?b=2&a=1", "/public/other?q=1", "/admin/secret", "/public/other",
 				// request targets a client can make a proxy forward: a path starting with two slashes (which reads like an
 				// authority) and the absolute form; only path and query are this header's business
 				"//evil.example.com/admin/secret?as=root", "https://evil.example.com/admin/secret?as=root"}).Draw(t, "v")}
